@@ -700,6 +700,9 @@ def check_headers(case, res):
     nontrivial = False
     fusion_donors = {r['tx'] for r in case['records'] if r['kind'] == 'fusion'}
     u_cache = {}
+    # inputs in the domain of an open finding (pepsin, ...) are classified there by the caller,
+    # not under the rate-capped shape findings
+    in_domain = bool(known_domain_findings(case))
 
     def realizable_somehow(seq, rec):
         # may-set of a fusion / circRNA backbone with ALL its records available
@@ -732,7 +735,8 @@ def check_headers(case, res):
                 if k:
                     known.append((k, seq, e['entry']))
                     continue
-                if crowded_truncation_signature(case, ref, e['backbone'], seq):
+                if not in_domain and \
+                        crowded_truncation_signature(case, ref, e['backbone'], seq):
                     known.append(('CV-crowded-truncated-product', seq, e['entry']))
                     continue
             if w[0] == 'not-a-product' and e['backbone'] not in ref.txs:
@@ -741,7 +745,8 @@ def check_headers(case, res):
                     known.append(('C03-noncanonical-backbone-incomplete-label', seq,
                         e['entry']))
                     continue
-                if rec['kind'] == 'circ' and circ_rare_signature(case, ref, rec, seq):
+                if rec['kind'] == 'circ' and not in_domain and \
+                        circ_rare_signature(case, ref, rec, seq):
                     known.append(('CV-circ-copy-inconsistency', seq, e['entry']))
                     continue
             if case.get('family') == 'as_nested' and w[0] in ('not-a-product', 'unusable-id',
